@@ -232,7 +232,9 @@ def run(case):
         assignments = keep
         extra = []
     all_off = assignments[1][1]
+    from .. import runner
     for iname, ii, kw0 in inputs:
+        runner.kick()
         ref_obs = drivers.observe(dict(ii, cls=cls, kw=dict(kw0, optimization_options=dict(all_off))))
         if ref_obs["exc"]:
             viol.append({"kind": "reference_exception", "msg": f"{cls}({iname}, all optimisations off) raised {ref_obs['exc']}"})
